@@ -168,6 +168,15 @@ AcceptedRawIs(obs, follow, tag) ==
    CV(follow.re_b.out = "ok" /\ ItemsAre(follow.re_b.items, S), "" \o tag \o ":reread-bytes-unequal") \cup
    CD(obs.crc = Crc(S), "" \o tag \o ":checksum") \cup
    CD(follow.wi.v = WireInts(S), "" \o tag \o ":wire-form"))
+\* whatever the code accepted (even where the spec's registry check refuses it): the follow-up
+\* operations of a client end without a panic
+NoPanicSnap(o, tag) ==
+  CV(o.obs.view_out = "ok" /\ o.obs.look_out = "ok" /\ o.obs.crc_out = "ok", "" \o tag \o ":panic-in-items-item-crc") \cup
+  CV(o.rec.out = "ok", "" \o tag \o ":recycle-panic") \cup
+  (IF o.rec.out # "ok" THEN {} ELSE
+   CV(\A j \in 1..Len(o.rec.outs) : o.rec.outs[j] # "panic", "" \o tag \o ":add-after-recycle-panic") \cup
+   CV(o.rec.obs.view_out = "ok" /\ o.rec.obs.look_out = "ok" /\ o.rec.obs.crc_out = "ok",
+      "" \o tag \o ":recycled:panic-in-items-item-crc"))
 \* follow-up operations on an accepted Snap (registry well-formed): enumerate, look up, recycle, add
 AcceptedSnapIs(o, S, adds2, tag) ==
   LET probes == [j \in 1..Len(adds2) |-> [ty |-> adds2[j].ty, i |-> adds2[j].i]] IN
@@ -210,7 +219,8 @@ JudgeParseSnap(e) ==
         q == CheckRegistry(S)
     IN CD(q.ok = (sn.out = "ok"), "snap:verdict-differs") \cup
        (IF sn.out # "ok" THEN (IF q.ok THEN {} ELSE CD(sn.out = q.e, "snap:error-class")) ELSE
-        IF ~q.ok THEN {} ELSE
+        IF ~q.ok THEN NoPanicSnap(sn, "snap:accepted-ill-formed-registry") \cup
+                      CV(sn.wi.out # "panic" /\ sn.wb_out # "panic", "snap:accepted-ill-formed-registry:write-panic") ELSE
         CV(sn.wi.out = "ok" /\ sn.wb_out = "ok", "snap:write-" \o sn.wi.out) \cup
         AcceptedSnapIs(sn, S, e.adds2, "snap"))))
 
@@ -245,7 +255,9 @@ JudgeParseDelta(e) ==
       LET q == CheckRegistry(ap.s) IN
       CV(e.snap.out # "panic", "delta:snap-apply-panic") \cup
       CD(q.ok = (e.snap.out = "ok"), "delta:snap-verdict-differs") \cup
-      (IF e.snap.out # "ok" \/ ~q.ok THEN {} ELSE AcceptedSnapIs(e.snap, ap.s, e.adds2, "delta:snap"))))))
+      (IF e.snap.out # "ok" THEN {} ELSE
+       IF ~q.ok THEN NoPanicSnap(e.snap, "delta:snap:accepted-ill-formed-registry")
+       ELSE AcceptedSnapIs(e.snap, ap.s, e.adds2, "delta:snap"))))))
 
 Judge(e) ==
   CASE e.op = "pair" -> JudgePair(e)
